@@ -868,6 +868,12 @@ def pool_read(entry, idx, tmpdir):
         return lasio.read(text, **kw)
     if via == "StringIO":
         return lasio.read(io.StringIO(text), **kw)
+    if via == "path:bytes":
+        # the entry's text is the hex of the file's bytes; no encoding is named: lasio decides from the bytes
+        p = os.path.join(tmpdir, entry.get("fname") or "bytes_%s.las" % hashlib.sha1(text.encode()).hexdigest()[:10])
+        with open(p, "wb") as f:
+            f.write(bytes.fromhex(text))
+        return lasio.read(p, **kw)
     codec = {"path:utf-8": "utf-8", "path:bom": "utf-8-sig", "path:utf-16": "utf-16"}[via]
     p = os.path.join(tmpdir, "pool%d_%s.las" % (idx, hashlib.sha1((via + text).encode("utf-8", "replace")).hexdigest()[:8]))
     if not os.path.exists(p):
@@ -980,6 +986,57 @@ def init_default():
         DEFAULT0[0] = dump(lasio.LASFile())
 
 
+REPLACE_WORDS = ["Soci\u00e9t\u00e9 G\u00e9n\u00e9rale", "M\u00fcnchen-1", "\u00c5sgard", "temp\u00e9rature", "\u00b0C", "\u00b5S/m", "plain", "d\u00e9but"]
+REPLACE_CODECS = ["cp1252", "utf-8", "utf-8-sig", "utf-16", "latin-1"]
+
+
+def gen_replace(rng):
+    """One path, two successive contents of EQUAL size in (usually) different encodings: each read must give what
+    a fresh interpreter reads from those bytes (a read is a function of the bytes and the options, not of what the
+    path held before)."""
+    def text():
+        w = [rng.choice(REPLACE_WORDS) for _ in range(4)]
+        return ("~Version\n VERS. 2.0 : v\n WRAP. NO : w\n#PAD\n~Well\n STRT.M 100.0 : %s\n STOP.M 101.0 : s\n STEP.M 0.5 : s\n"
+                " NULL. -999.25 : n\n COMP. %s : COMPANY\n~Curve\n DEPT.M : d\n TEMP.%s : %s\n~ASCII\n 100.0 %d.5\n 100.5 20.6\n 101.0 20.7\n"
+                % (w[0], w[1], rng.choice(["\u00b0C", "degC", "\u00b5S/m"]), w[2], rng.randint(1, 99)))
+    ta, tb = text(), (text() if rng.random() < 0.6 else None)
+    ca, cb = rng.choice(REPLACE_CODECS), rng.choice(REPLACE_CODECS)
+    if tb is None:
+        tb = ta
+    for n in range(max(len(ta.encode(ca)), len(tb.encode(cb))), 4000):
+        out = []
+        for t, c in ((ta, ca), (tb, cb)):
+            per = 2 if c == "utf-16" else 1
+            d = n - len(t.encode(c))
+            if d < 0 or d % per:
+                break
+            out.append(t.replace("#PAD\n", "#PAD" + "." * (d // per) + "\n").encode(c))
+        if len(out) == 2:
+            break
+    assert len(out[0]) == len(out[1])
+    return {"kind": "replace", "codecs": [ca, cb], "hex": [out[0].hex(), out[1].hex()], "kw": rng.choice(KW_VARIANTS),
+            "rounds": rng.choice([1, 1, 2])}
+
+
+def run_replace(p, tmpdir):
+    """-> None or the text of the violation"""
+    entries = [{"text": h, "via": "path:bytes", "kw": p["kw"]} for h in p["hex"]]
+    fresh_baselines(entries)
+    fname = "shared_%s.las" % hashlib.sha1("".join(p["hex"]).encode()).hexdigest()[:10]
+    for r in range(p["rounds"]):
+        for i, e in enumerate(entries):
+            k = pool_key(e)
+            if k not in FIRST:
+                continue
+            o, _ = observe(lambda: pool_read(dict(e, fname=fname), 0, tmpdir))
+            if o != FIRST[k]:
+                return ("round %d: the path was rewritten with %d bytes in %s (before: %s, same size) and read(path, %r) does not give "
+                        "what a fresh interpreter reads from these bytes: %s"
+                        % (r, len(e["text"]) // 2, p["codecs"][i], p["codecs"][1 - i] if (r or i) else "nothing", p["kw"],
+                           first_diff(o, FIRST[k])))
+    return None
+
+
 def run_history(h, tmpdir):
     """Returns None or the text of the first purity violation."""
     import lasio
@@ -1088,7 +1145,7 @@ def default_changed():
     return None
 
 
-def stream(rng, n_tuples, n_decisions, n_dispatch, n_hist, tmpdir):
+def stream(rng, n_tuples, n_decisions, n_dispatch, n_hist, tmpdir, n_replace=0):
     """Yields (payload, violations, corr) for every generated case, in a fixed order."""
     def single_cases():
         for p in corpus_tuples():
@@ -1116,15 +1173,23 @@ def stream(rng, n_tuples, n_decisions, n_dispatch, n_hist, tmpdir):
         yield h, ([bad] if bad else []), None
         if bad:
             return       # the process state may be polluted from here on
+    rrng = random.Random(rng.random())
+    for k in range(n_replace):
+        p = gen_replace(rrng)
+        with tempfile.TemporaryDirectory(prefix="c10p_", dir=tmpdir) as hd:
+            bad = run_replace(p, hd)
+        yield p, ([bad] if bad else []), None
+        if bad:
+            return
 
 
 def run(ctx):
     res = lib.Result()
     rng = ctx.rng
     if ctx.thorough:
-        n_t, n_d, n_j, n_h = 4000, 1500, 800, 3000
+        n_t, n_d, n_j, n_h, n_r = 4000, 1500, 800, 3000, 400
     else:
-        n_t, n_d, n_j, n_h = 300, 150, 120, 200
+        n_t, n_d, n_j, n_h, n_r = 300, 150, 120, 200, 40
     cases = []
     payloads = []
     nontrivial = set()
@@ -1135,12 +1200,17 @@ def run(ctx):
     init_default()
     del UNREADABLE[:]
     with tempfile.TemporaryDirectory(prefix="c10_") as tmpdir:
-        for p, bad, corr in stream(rng, n_t, n_d, n_j, n_h, tmpdir):
+        for p, bad, corr in stream(rng, n_t, n_d, n_j, n_h, tmpdir, n_r):
             kind = p["kind"]
             hist[kind] += 1
             for b in bad:
                 res.oracle_violations.append({"payload": p, "what": b})
             if kind == "purity":
+                continue
+            if kind == "replace":
+                n_steps += 2 * p["rounds"]
+                if p["codecs"][0] != p["codecs"][1]:
+                    nontrivial.add(("P", hashlib.sha1("".join(p["hex"]).encode()).hexdigest()))
                 continue
             if kind == "history":
                 n_steps += len(p["steps"])
@@ -1162,7 +1232,7 @@ def run(ctx):
                 payloads.append(p)
     # a purity break makes later channel cases fail in ways that do not replay in a fresh
     # process; a history is self-contained, so history violations are reported first
-    res.oracle_violations.sort(key=lambda v: 0 if v["payload"]["kind"] in ("history", "purity") else 1)
+    res.oracle_violations.sort(key=lambda v: 0 if v["payload"]["kind"] in ("history", "purity", "replace") else 1)
     if ctx.build.model_ok:
         mism, err = lib.run_coq_cases("c10", [], RUN_DEF, cases, shard=100)
         res.corr_error = err
@@ -1178,7 +1248,8 @@ def run(ctx):
     res.distinct_nontrivial = len(nontrivial)
     res.rule = ("cases = channel/decision/dispatch calls + history steps. non-trivial = distinct (text, channel, encoding, newline, "
                 "kwargs) tuples inside the property's quantifier whose header fields contain at least one non-ASCII character, "
-                "plus distinct histories that contain at least one mutation before a later (probe) read; "
+                "plus distinct histories that contain at least one mutation before a later (probe) read, plus distinct "
+                "same-path/same-size replacements of a file by one in another encoding; "
                 "%d of the %d possible (channel, encoding, newline) combinations were covered" % (len(combos), 3 * 5 * 3 + 2))
     res.samples = samples
     res.histogram = dict(hist)
@@ -1193,6 +1264,9 @@ def replay(payload):
         if payload["kind"] == "history":
             bad = run_history(payload, tmpdir)
             return (bad is not None), (bad or "history replays without a purity violation")
+        if payload["kind"] == "replace":
+            bad = run_replace(payload, tmpdir)
+            return (bad is not None), (bad or "both contents of the path read as in a fresh interpreter")
         if payload["kind"] == "purity":
             eval_case(payload["case"], tmpdir)
             ch = default_changed()
@@ -1217,6 +1291,6 @@ def search(ctx, res):
             for b in bad:
                 yield {"payload": m["payload"], "what": b}
         rng = random.Random(ctx.seed + 1)
-        for p, bad, _ in stream(rng, 1500, 600, 300, 800, tmpdir):
+        for p, bad, _ in stream(rng, 1500, 600, 300, 800, tmpdir, 300):
             for b in bad:
                 yield {"payload": p, "what": b}
